@@ -481,7 +481,9 @@ def class_transparent_full (d : Deco) : Prop :=
   ∀ (k : MemberKind) (acc : Access) (p : Params) (self cls : Nat) (raw : Fn) (a : Args) (w : World),
     bodyObs (invoke (decoratedMember d p k acc self cls raw) a w) = bodyObs (invoke (twinMember k acc self cls raw) a w)
 
-def p0 : Params := ⟨⟨90, 900⟩, [], ⟨false, ⟨[2, 3], [], [], false, false⟩, fun i => .ret ⟨300 + i, 300 + i⟩⟩, true, ⟨false, false, false, 1, false⟩⟩
+/-- `class Base:  def target(self): ...` (name 100 bound to a function in the class body; `object` and the metaclass `type` bind nothing of interest) -/
+def basePlain : ClassDesc := ⟨[[⟨100, ⟨false, true, true⟩⟩], []], [[], []], none, none⟩
+def p0 : Params := ⟨⟨90, 900⟩, [], ⟨false, ⟨[2, 3], [], [], false, false⟩, fun i => .ret ⟨300 + i, 300 + i⟩⟩, basePlain, 100, ⟨false, false, false, 1, false⟩⟩
 def b0 : Body := ⟨false, ⟨[2, 3], [], [], false, false⟩, fun i => .ret ⟨100 + i, 100 + i⟩⟩
 def a0 : Args := ⟨[11, 12], []⟩
 def w0 : World := ⟨0, 0⟩
@@ -844,13 +846,77 @@ theorem keeps_coroutine (d : Deco) (hd : d ∈ decos) (hn : dedicatedNames.conta
   split <;> simp_all
 
 /-! overrides -/
-/-- **overrides raises iff the base class lacks the name** (at decoration time; `hm`: the function still carries its own name) -/
+
+/-- `dir(cls)` lists a name iff the class does not lack it: some class body along the MRO binds it (whatever the value), or the
+    metaclass' `__dir__` returns it -/
+theorem dir_lists_iff (c : ClassDesc) (n : Nat) : n ∉ c.dir ↔ LacksName c n := by
+  unfold ClassDesc.dir LacksName
+  cases c.dirOverride with
+  | some l => simp
+  | none =>
+    simp only [List.mem_map, List.mem_flatten, not_exists, not_and]
+    constructor
+    · intro h body hb m hm heq
+      exact h m ⟨body, hb, hm⟩ heq
+    · intro h m ⟨body, hb, hm⟩ heq
+      exact h body hb m hm heq
+
+/-- the executable form of the specification is the specification -/
+theorem hasName_iff (c : ClassDesc) (n : Nat) : hasName c n = false ↔ LacksName c n := by
+  unfold hasName LacksName
+  cases c.dirOverride with
+  | some l =>
+    simp only [Bool.eq_false_iff, ne_eq, List.any_eq_true, beq_iff_eq, not_exists, not_and]
+    constructor
+    · intro h hmem; exact h n hmem rfl
+    · intro h k hk hkn; exact h (hkn ▸ hk)
+  | none =>
+    simp only [Bool.eq_false_iff, ne_eq, List.any_eq_true, beq_iff_eq, not_exists, not_and]
+
+instance (c : ClassDesc) (n : Nat) : Decidable (LacksName c n) := decidable_of_iff _ (hasName_iff c n)
+
+/-- **overrides raises iff the base class lacks the name** (at decoration time; `hm`: the function still carries its own name):
+    for every class — any depth of inheritance, any bound values, any metaclass — `PedanticOverrideException` is raised iff no
+    class body along the MRO binds the name (or the overridden listing omits it); otherwise the function itself is handed back -/
 theorem overrides_iff (p : Params) (inner : Fn) (hm : inner.metaOk = true) :
-    (decorate dOverrides p inner = .error (.lib "PedanticOverrideException") ↔ p.baseHasName = false) ∧
-    (p.baseHasName = true → decorate dOverrides p inner = .ok (.deco dOverrides p inner)) := by
-  cases hb : p.baseHasName <;>
+    (decorate dOverrides p inner = .error (.lib "PedanticOverrideException") ↔ LacksName p.base p.fname) ∧
+    (¬ LacksName p.base p.fname → decorate dOverrides p inner = .ok (.deco dOverrides p inner)) := by
+  rw [← dir_lists_iff]
+  by_cases hb : p.fname ∈ p.base.dir <;>
     simp [decorate, dOverrides, execL, exec, evalCond, mkFrame, hm, hb]
 
+/-- the decoration-time outcome of the generated text is the one the specification prescribes -/
+theorem overrides_decorate_meets_spec (p : Params) (b : Body) :
+    (match decorate dOverrides p (.body b) with | .error e => some e | .ok _ => none)
+      = specDecorate (.layer .overrides p (.body b)) := by
+  have h := overrides_iff p (.body b) rfl
+  simp only [specDecorate]
+  cases hn : hasName p.base p.fname with
+  | false =>
+    have hl := (hasName_iff _ _).mp hn
+    rw [h.1.mpr hl]; simp
+  | true =>
+    have hl : ¬ LacksName p.base p.fname := fun hl => by simp [(hasName_iff _ _).mpr hl] at hn
+    rw [h.2 hl]; simp
+
+/-- a name some class body along the MRO binds is accepted **whatever object is bound to it** — `None` (`__hash__ = None`,
+    a `handler = None` placeholder), a falsy value, a property, a static / class method, in the class itself or in any ancestor -/
+theorem overrides_accepts_any_bound_value (p : Params) (inner : Fn) (hm : inner.metaOk = true) (hd : p.base.dirOverride = none)
+    (body : List Member) (m : Member) (hb : body ∈ p.base.mro) (hmem : m ∈ body) (hn : m.name = p.fname) :
+    decorate dOverrides p inner = .ok (.deco dOverrides p inner) := by
+  apply (overrides_iff p inner hm).2
+  intro hl
+  simp only [LacksName, hd] at hl
+  exact hl body hb m hmem hn
+
+/-- a name that only the metaclass offers (bound along the metaclass' MRO such as `mro` / `__call__`, or answered by its
+    `__getattr__`) is rejected although `getattr(base_class, name)` succeeds -/
+theorem overrides_rejects_metaclass_only_names (p : Params) (inner : Fn) (hm : inner.metaOk = true) (hd : p.base.dirOverride = none)
+    (hno : ∀ body ∈ p.base.mro, ∀ m ∈ body, m.name ≠ p.fname) :
+    decorate dOverrides p inner = .error (.lib "PedanticOverrideException") := by
+  apply (overrides_iff p inner hm).1.mpr
+  simp only [LacksName, hd]
+  exact hno
 
 /-! ## count_calls / deprecated over whole call histories -/
 
@@ -1148,8 +1214,27 @@ example : (invoke (.deco dDoesSameAsFunction pAgree (.body b0a)) a0 w0).1.tag = 
 -- mock / unimplemented
 example : (invoke (.deco dMock p0 (.body b0a)) a0 w0).1.tag = .obj ⟨90, 900⟩ := by decide
 -- overrides
-example : decorate dOverrides { p0 with baseHasName := false } (.body b0) = .error (.lib "PedanticOverrideException") := by
-  simp [decorate, dOverrides, execL, exec, evalCond, mkFrame, Fn.metaOk, p0]
+/-- `class Base:  def __eq__(self, o): ...` — Python adds `__hash__ = None` to the class body (names: 103 `__hash__`, 104 `__eq__`,
+    105 `mro`); `object` binds both dunders, `type` binds `mro` -/
+def baseEq : ClassDesc :=
+  ⟨[[⟨103, ⟨true, false, false⟩⟩, ⟨104, ⟨false, true, true⟩⟩], [⟨103, ⟨false, true, true⟩⟩, ⟨104, ⟨false, true, true⟩⟩]],
+   [[⟨105, ⟨false, true, true⟩⟩], [⟨103, ⟨false, true, true⟩⟩, ⟨104, ⟨false, true, true⟩⟩]], none, none⟩
+/-- `class Meta(type):  def __getattr__(cls, n): return <function>` / `class Base(metaclass=Meta): pass` -/
+def baseMetaGetattr : ClassDesc := ⟨[[], []], [[], [⟨105, ⟨false, true, true⟩⟩], []], some ⟨false, true, true⟩, none⟩
+example : decorate dOverrides { p0 with base := ⟨[[], []], [[], []], none, none⟩ } (.body b0) = .error (.lib "PedanticOverrideException") :=
+  (overrides_iff _ (.body b0) rfl).1.mpr (by decide)
+example : decorate dOverrides p0 (.body b0) = .ok (.deco dOverrides p0 (.body b0)) := (overrides_iff p0 (.body b0) rfl).2 (by decide)
+-- the base class has `__hash__` although `getattr(Base, '__hash__', None) is None` …
+example : baseEq.getattr 103 = some ⟨true, false, false⟩ ∧ ¬ LacksName baseEq 103 := by decide
+example : decorate dOverrides { p0 with base := baseEq, fname := 103 } (.body b0) = .ok (.deco dOverrides { p0 with base := baseEq, fname := 103 } (.body b0)) :=
+  overrides_accepts_any_bound_value _ _ rfl rfl _ ⟨103, ⟨true, false, false⟩⟩ (List.mem_cons_self ..) (List.mem_cons_self ..) rfl
+-- … and lacks `mro` / whatever the metaclass answers although `getattr` finds something
+example : (baseEq.getattr 105).isSome = true ∧ LacksName baseEq 105 := by decide
+example : (baseMetaGetattr.getattr 100).isSome = true ∧ LacksName baseMetaGetattr 100 := by decide
+example : decorate dOverrides { p0 with base := baseEq, fname := 105 } (.body b0) = .error (.lib "PedanticOverrideException") :=
+  (overrides_iff _ (.body b0) rfl).1.mpr (by decide)
+example : decorate dOverrides { p0 with base := baseMetaGetattr } (.body b0) = .error (.lib "PedanticOverrideException") :=
+  overrides_rejects_metaclass_only_names _ _ rfl rfl (by decide)
 -- count_calls: three calls, the second raises a BaseException, the third does not bind — all three are counted
 example : counterAfter 0 0 (runHistory (.deco dCountCalls p0 (.body b1)) [a0, ak, ⟨[11], []⟩] w0) = 3 := by decide
 example : (runHistory (.deco dCountCalls p0 (.body b1)) [a0, ak, ⟨[11], []⟩] w0).map (fun o => o.1.tag) =
